@@ -185,3 +185,23 @@ Print Assumptions C07_forward_exact_mixed_byday_refuted.
 Example C07_forward_exact_nonvacuous : _ := RecurExact2.C07_forward_exact_instances.
 Example C07_forward_total_nonvacuous : _ := RecurExact2.C07_forward_total_instance_setpos.
 Example C07_zone_hypothesis_satisfiable : _ := RecurExact2.zone_hypothesis_satisfiable.
+
+(* ---- tie C (extended): statements about the Gallina translation of the SOURCE TEXT, regenerated from
+   /repo on every run (Gen/Source.v); external calls are function parameters of the generated definitions ---- *)
+From CG Require Import Model.Loop Gen.Source Proofs.GenEq2.
+
+(* RecurringPattern._fetch_forward (look-back ladder + streaming loop), composed with the model's
+   anchor and rrule expansion, returns what the model's fetch_forward returns ... *)
+Theorem C07_source_forward_is_model : forall r a b l,
+  fetch_forward r a b = Ok l ->
+  g_forward_of r (gen_anchor r) (model_rrule r b) (Some a) (Some b) = RDone l.
+Proof. exact g_recur_fetch_forward_composed_eq. Qed.
+Print Assumptions C07_source_forward_is_model.
+
+(* ... hence exactly the spec's occurrences *)
+Theorem C07_source_forward_exact : forall r a b l,
+  lists_ok r -> 0 < r_interval r -> rule_accepted r -> zone_spread_ok (r_zone r) = true ->
+  fetch_forward r a b = Ok l ->
+  g_forward_of r (gen_anchor r) (model_rrule r b) (Some a) (Some b) = RDone (spec_occurrences r a b).
+Proof. exact src_forward_exact. Qed.
+Print Assumptions C07_source_forward_exact.
